@@ -795,7 +795,7 @@ func (x *c15Runner) one(cs c15Case) {
 
 func TestVerif_C15(t *testing.T) {
 	rec := kit.Start("C15", "exploration",
-		"cases = (sql_mode form set via SET, session charset utf8|gbk|big5|sjis|gb18030, template with 1-4 placeholders, binary-protocol values); systematic: every byte singly, pairs around quote/backslash/NUL/GBK lead bytes, int extremes of every width and sign, float specials, dates/times of every wire length, NULLs, long data; random multi-placeholder mixes. distinct = (sql_mode class, charset, value kind/class[/bytes])")
+		"single-step cases = (sql_mode form set via SET, session charset utf8|gbk|big5|sjis|gb18030, template with 1-4 placeholders, binary-protocol values); systematic: every byte singly, pairs around quote/backslash/NUL/GBK lead bytes, int extremes of every width and sign, float specials, dates/times of every wire length, NULLs, long data; random multi-placeholder mixes; multi-step shapes: long data + refused execute + good execute, typed execute (+re-bind with other types) + other packets of assorted sizes + re-execute with new-params-bound=0. distinct = (sql_mode class, charset, value kind/class[/bytes])")
 	defer rec.Finish(t)
 	rec.Assume("the backend lexes statements as MySQL 5.7/8.0 does (sql_lex.cc get_text / number states) under the sql_mode and character_set_client the proxy set on that backend connection; the backend's global sql_mode does not contain NO_BACKSLASH_ESCAPES")
 	rec.Assume("FLOAT values are compared after parsing the literal to 32-bit precision (shortest round-trip text), DOUBLE to 64-bit")
@@ -812,9 +812,17 @@ func TestVerif_C15(t *testing.T) {
 		var doc struct {
 			Minimal  c15Case `json:"minimal"`
 			Original c15Case `json:"original"`
+			Seq      *c15Seq `json:"seq"`
+			SeqOrig  *c15Seq `json:"seq_original"`
 		}
 		if err := kit.LoadReplay(p, &doc); err != nil {
 			t.Fatal(err)
+		}
+		for _, sq := range []*c15Seq{doc.Seq, doc.SeqOrig} {
+			if sq != nil {
+				x.oneSeq(*sq)
+				rec.Sample(map[string]interface{}{"shape": sq.Shape, "refuse": sq.Refuse, "between": sq.Between})
+			}
 		}
 		for _, c := range []c15Case{doc.Minimal, doc.Original} {
 			if len(c.Params) > 0 {
@@ -844,7 +852,28 @@ func TestVerif_C15(t *testing.T) {
 			stop = true
 		}
 	})
+	// multi-step shapes (see c15_seq_test.go)
+	sr := kit.SubRand(kit.Seed(), "C15/seq")
+	nseq := kit.N(2500, 40000)
+	for k := 0; k < nseq && !stop; k++ {
+		sq := c15GenSeq(sr)
+		x.oneSeq(sq)
+		if k%499 == 0 {
+			rec.Sample(map[string]interface{}{"shape": sq.Shape, "refuse": sq.Refuse, "mode": sq.Mode, "charset": sq.Charset, "template": strings.Join(c15Templates[sq.Tpl], "?"),
+				"rebind": sq.Mid != nil, "between": sq.Between, "final": c15SampleParams(sq.Final)})
+		}
+		if k%1000 == 999 {
+			psTrimEvents(r)
+		}
+		if rec.CounterValue("harness_errors") > 20 {
+			stop = true
+		}
+	}
+	ncases += nseq
 	rec.Set("cases_generated", ncases)
+	if rec.CounterValue("seq.refused") == 0 || rec.CounterValue("seq.retypes") == 0 {
+		rec.Inconclusive("no multi-step shape (refused execute / bound=0 re-execute) was played")
+	}
 	if x.fatal != "" && rec.CounterValue("harness_errors") > 0 {
 		rec.Inconclusive(fmt.Sprintf("%d harness errors, first: %s", rec.CounterValue("harness_errors"), x.fatal))
 	}
